@@ -108,7 +108,12 @@ def _gp_chunk(arg):
             bad.append((k, "gen_params raised %s" % r["exc"], r, text))
             continue
         why = u.diff(r["g"], exp)
-        if not why and r["itp"] != [[i + 1, nm] for i, nm in enumerate(exp["name"])]:
+        if not why and r["itp"] is None:
+            # MapToMolecule and later stages are only claimed for connected residue graphs (DESIGN 3); a disconnected
+            # graph is still compared where gen_params hands it over
+            if u.connected(exp):
+                why = "gen_params raised %s after the residue graph was built" % r["after"]
+        elif not why and r["itp"] != [[i + 1, nm] for i, nm in enumerate(exp["name"])]:
             why = "residues of the .itp are %s" % (r["itp"][:8],)
         if why:
             bad.append((k, "gen_params: " + why, r, text))
@@ -134,7 +139,7 @@ def _report(ck, label, cases, results, devmap):
                     sig = SIG_CIRC
             ck.violation({"kind": "S->I " + label, "inp": case["inp"], "expected": case["g"], "free": case["free"],
                           "hist": case.get("hist", []), "observed": obs, "rendered": text},
-                         sig=sig, what="%s %s: %s" % (label, text if isinstance(text, str) else json.dumps(text), why))
+                         sig=sig, what="%s: %s; input %s" % (label, why, (repr(text) if isinstance(text, str) else json.dumps(text))[:400]))
     return nbad
 
 
@@ -284,12 +289,15 @@ def record(inps, name):
 validate = u.validate
 
 
-def validate_batches(ck, traces, name, size=400):
+def validate_batches(ck, traces, name, size=500):
     """P-layer validation; what the P-layer rejects is re-validated against the I-layer with the deviations of the known
     findings (exact classification), anything rejected there as well is a violation"""
     bad = []
-    for b, part in enumerate(c.chunks(traces, max(1, (len(traces) + size - 1) // size))):
-        res, rejected = validate(part, "%s_%d" % (name, b))
+    parts = c.chunks(traces, max(1, (len(traces) + size - 1) // size))
+    from concurrent.futures import ThreadPoolExecutor
+    with ThreadPoolExecutor(max(1, min(4, c.NPROC // 2))) as ex:
+        results = list(ex.map(lambda bp: validate(bp[1], "%s_%d" % (name, bp[0])), enumerate(parts)))
+    for part, (res, rejected) in zip(parts, results):
         ck.add_tlc(res)
         ck.traces += len(part) - len(rejected)
         for tid, matched in sorted(rejected.items()):
@@ -410,7 +418,6 @@ def run(tier):
 def replay(path):
     doc = json.loads(open(path).read())
     case = doc["case"]
-    ck = c.Check(PROP, "quick")
     if case["kind"].startswith("S->I"):
         wd = c.workdir(PROP, "replay_one")
         cs = {"inp": case["inp"], "g": case["expected"], "free": case["free"], "hist": case.get("hist", [])}
